@@ -1,5 +1,8 @@
-"""GenCredFun.v: the small decision functions of the credential pipeline TRANSLATED FROM THE C TEXT into Gallina on every
-run (a translator, not a probe): enc_validate_msg (enc.c), dec_validate_auth and dec_validate_time (dec.c).
+"""GenCredFun.v: the decision functions AND the control skeleton of the credential pipeline TRANSLATED FROM THE C TEXT into
+Gallina on every run (a translator, not a probe):
+  enc.c: enc_validate_msg, enc_authenticate, enc_check_retry, enc_timestamp, enc_process_msg (skeleton)
+  dec.c: dec_validate_msg, dec_timestamp, dec_authenticate, dec_check_retry, dec_validate_auth, dec_validate_time,
+         dec_validate_replay, dec_process_msg (skeleton)
 
 The translator understands a subset of C that these functions stay inside: local declarations of integer type,
 assignments to locals and to members of `m`, if / else-if / else, empty statements, `return (0)`,
@@ -11,7 +14,44 @@ that are mapped to the model's tables.  C's integer semantics are made explicit:
 (mod 2^32), conversions to int wrap to the signed range; signed overflow (undefined behaviour) is not modelled.
 Anything outside the subset makes the generation fail, which the check reports.
 
-coq/CredFun.v proves that CredModel's enc_validate / dec_authorized / dec_time ARE these functions."""
+Modelling decisions for what is outside pure integer code (each one is a visible PARAMETER of the generated function,
+never a hidden assumption):
+  * log_msg (...) as a statement is dropped: it has no effect on the message or on the reply.
+  * a function returns (code, m): `return (0)` is (0, m); `return (m_msg_set_err (m, E, str))` is (E, m) - the C function
+    then returns -1 and the error member is set by m_msg_set_err (first error wins; CredModel.set_err); the string is
+    not translated.
+  * m->data (a pointer member) is the parameter `p_data : Z` (the address, 0 = NULL).
+  * time (&x): the clock is the parameter `clk : Z` (a time_t, 64 bit); the call stores clk in the local x and has the
+    value clk (so the failure test `== (time_t) -1` is translated as written).
+  * auth_recv (m, P, Q): an opaque source of a pair.  Parameters `auth_rc peer_uid peer_gid : Z` (peer_* are uid_t/gid_t
+    values, 32-bit unsigned).  The call has the value auth_rc and, when auth_rc = 0, stores peer_uid through P and
+    peer_gid through Q (auth_recv.c returns before its stores on every failure path).  P and Q are resolved AT
+    TRANSLATION TIME to the object they point to: `&local`, `&(m->member)`, or a pointer local that was assigned one of
+    these at the top level of the function (`p_uid = (uid_t *) &(m->client_uid);`); pointer casts are dropped (the
+    pointed-to member's own type, from m_msg.h, decides the stored width).  Any other pointer use fails the generation.
+  * replay_insert (c): its result is the parameter `ins : Z` (0 inserted, > 0 already there, < 0 failure); `errno` after
+    it is the parameter `errno_ : Z`; ENOMEM is 12 (Linux).
+  * a call with a side effect (the ones above and, in the skeletons, the stage calls and m_msg_send) may appear only
+    where it is evaluated unconditionally (not to the right of && or ||, not in a ?: arm), at most one per
+    condition/assignment; it is hoisted in front of the condition as a `let`.
+  * the skeletons (enc_process_msg, dec_process_msg) are translated in "pipe" mode, polymorphic in the state S of one
+    request (message + credential aux data + replay hash), over a record of operations
+        pipe_ops S = { op_msg : S -> msg;  op_stage : string -> S -> Z * S;  op_reset : S -> S;
+                       op_send : S -> Z * S;  op_unplay : S -> S }
+    - `NAME (m)` / `NAME (c)` for NAME = cred_create or any dec_*/enc_* function is `op_stage ops "NAME"`: the C return
+      value (int; for cred_create the pointer, 0 = NULL) and the new state;
+    - `c = cred_create (m)` inside a condition: an assignment expression to the local `c` (pointers held in locals are
+      integers, NULL = 0);
+    - m->member is read through op_msg; `m_msg_reset (m);` is op_reset; `m_msg_send (m, TYPE, 0)` is op_send (its
+      munge_err_t value and the new state; TYPE and the length limit are not translated); `replay_remove (c);` is
+      op_unplay; `cred_destroy (c);` is dropped (it releases the aux data; nothing of it is observable afterwards);
+    - `return (rc)` is (rc, state).
+    Which stage runs after which, that a failing stage ends the chain, the guard of m_msg_reset and exactly when
+    replay_remove is called are therefore read from the source text.
+
+coq/CredFun.v proves that CredModel's decision functions ARE these functions; coq/CredPipe.v proves that the two
+skeletons are the reference control structure (pipe_control) over the model's stage order and that CredModel's
+dec_process + dec_rollback / enc_process are that control structure over the model's stage functions."""
 import os, re
 
 U32 = 4294967296
@@ -19,19 +59,30 @@ U32 = 4294967296
 MSG_FIELD = {"cipher": "m_cipher", "mac": "m_mac", "zip": "m_zip", "realm_len": "m_realm_len", "ttl": "m_ttl",
              "addr_len": "m_addr_len", "time0": "m_time0", "time1": "m_time1", "cred_uid": "m_cred_uid", "cred_gid": "m_cred_gid",
              "auth_uid": "m_auth_uid", "auth_gid": "m_auth_gid", "data_len": "m_data_len", "client_uid": "m_client_uid",
-             "client_gid": "m_client_gid", "retry": "m_retry"}
+             "client_gid": "m_client_gid", "retry": "m_retry", "error_num": "m_err"}
+PTR_FIELD = {"data": ("p_data", "data_ptr")}          # pointer members: (parameter, environment key)
 CONF_FIELD = {"def_cipher": ("(Z.of_N (cf_def_cipher cf))", "int"), "def_mac": ("(Z.of_N (cf_def_mac cf))", "int"),
               "def_zip": ("(Z.of_N (cf_def_zip cf))", "int"), "def_ttl": ("(Z.of_N (cf_def_ttl cf))", "int"),
               "max_ttl": ("(Z.of_N (cf_max_ttl cf))", "int"), "got_clock_skew": ("(b2z (cf_clock_skew cf))", "int"),
-              "got_root_auth": ("(b2z (cf_root_auth cf))", "int"), "gids": ("0", "int")}
+              "got_root_auth": ("(b2z (cf_root_auth cf))", "int"), "got_socket_retry": ("(b2z (cf_socket_retry cf))", "int"),
+              "gids": ("0", "int")}
 MACROS = {"MUNGE_CIPHER_DEFAULT": "c_cipher_default", "MUNGE_CIPHER_NONE": "c_cipher_none", "MUNGE_MAC_DEFAULT": "c_mac_default",
           "MUNGE_MAC_NONE": "c_mac_none", "MUNGE_ZIP_DEFAULT": "c_zip_default", "MUNGE_ZIP_NONE": "c_zip_none",
-          "MUNGE_TTL_DEFAULT": "c_ttl_default", "MUNGE_UID_ANY": "c_uid_any", "MUNGE_GID_ANY": "c_gid_any"}
-ERRS = {"EMUNGE_BAD_CIPHER": "e_bad_cipher", "EMUNGE_BAD_MAC": "e_bad_mac", "EMUNGE_BAD_ZIP": "e_bad_zip",
-        "EMUNGE_CRED_REWOUND": "e_cred_rewound", "EMUNGE_CRED_EXPIRED": "e_cred_expired",
-        "EMUNGE_CRED_UNAUTHORIZED": "e_cred_unauthorized", "EMUNGE_BAD_CRED": "e_bad_cred", "EMUNGE_SNAFU": "e_snafu"}
+          "MUNGE_TTL_DEFAULT": "c_ttl_default", "MUNGE_UID_ANY": "c_uid_any", "MUNGE_GID_ANY": "c_gid_any",
+          "MUNGE_SOCKET_RETRY_ATTEMPTS": "c_retry_attempts"}
+ERRS = {"EMUNGE_SUCCESS": "e_success", "EMUNGE_SNAFU": "e_snafu", "EMUNGE_BAD_ARG": "e_bad_arg", "EMUNGE_NO_MEMORY": "e_no_memory",
+        "EMUNGE_SOCKET": "e_socket", "EMUNGE_BAD_CRED": "e_bad_cred", "EMUNGE_BAD_VERSION": "e_bad_version",
+        "EMUNGE_BAD_CIPHER": "e_bad_cipher", "EMUNGE_BAD_MAC": "e_bad_mac", "EMUNGE_BAD_ZIP": "e_bad_zip",
+        "EMUNGE_CRED_INVALID": "e_cred_invalid", "EMUNGE_CRED_EXPIRED": "e_cred_expired", "EMUNGE_CRED_REWOUND": "e_cred_rewound",
+        "EMUNGE_CRED_REPLAYED": "e_cred_replayed", "EMUNGE_CRED_UNAUTHORIZED": "e_cred_unauthorized"}
 CTYPE = {"uint8_t": "u8", "uint32_t": "u32", "int": "int", "unsigned": "u32", "unsigned int": "u32", "time_t": "long", "long": "long",
          "uid_t": "u32", "gid_t": "u32"}
+TYPEWORDS = set(w for t in CTYPE for w in t.split()) | {"m_msg_t", "munge_cred_t"}
+ENOMEM = 12
+# parameters a function may take from its environment, in the order they are declared
+ENV_PARAMS = [("gids", "(is_member : N -> N -> bool)"), ("data_ptr", "(p_data : Z)"), ("time", "(clk : Z)"),
+              ("auth_recv", "(auth_rc peer_uid peer_gid : Z)"), ("replay_insert", "(ins : Z)"), ("errno", "(errno_ : Z)")]
+STAGE_RE = re.compile(r"^(?:(?:dec|enc)_\w+|cred_create)$")
 
 
 class TErr(Exception):
@@ -47,6 +98,7 @@ def lex(src):
     src = re.sub(r'"(?:\\.|[^"\\])*"', '"S"', src)          # string literals carry no logic here
     out, i = [], 0
     src = src.replace('"S"', " STRLIT ")
+    src = re.sub(r"(?:STRLIT\s+)+", "STRLIT ", src)         # adjacent literals are one literal
     while True:
         m = TOK.match(src, i)
         if not m:
@@ -81,7 +133,7 @@ class P:
     def at(self, val):
         return self.peek()[1] == val and self.peek()[0] in ("op", "id")
 
-    # expr := ternary
+    # expr := ternary | lvalue = expr
     def expr(self):
         c = self.lor()
         if self.at("?"):
@@ -90,6 +142,9 @@ class P:
             self.eat("op", ":")
             b = self.expr()
             return ("?:", c, a, b)
+        if self.peek() == ("op", "="):
+            self.eat()
+            return ("assignexpr", c, self.expr())
         return c
 
     def lor(self):
@@ -127,6 +182,9 @@ class P:
         if self.at("-"):
             self.eat()
             return ("neg", self.unary())
+        if self.peek() == ("op", "&"):
+            self.eat()
+            return ("addr", self.unary())
         if self.at("("):
             # cast or parenthesis
             k = 1
@@ -134,10 +192,17 @@ class P:
             while self.peek(k)[0] == "id":
                 words.append(self.peek(k)[1])
                 k += 1
+            stars = 0
+            while self.peek(k) == ("op", "*"):
+                stars += 1
+                k += 1
             ty = " ".join(words)
-            if words and self.peek(k) == ("op", ")") and ty in CTYPE:
+            if words and self.peek(k) == ("op", ")") and (ty in CTYPE or ty == "void"):
                 self.i += k + 1
-                return ("cast", CTYPE[ty], self.unary())
+                inner = self.unary()
+                if stars:
+                    return ("cast", "ptr", inner)
+                return ("cast", "void" if ty == "void" else CTYPE[ty], inner)
             self.eat()
             e = self.expr()
             self.eat("op", ")")
@@ -214,22 +279,31 @@ class P:
             self.eat()
             self.eat()
             return ("label", tk[1])
-        # declaration?  type words then identifier then ; or =
-        if tk[0] == "id" and (tk[1] in CTYPE or tk[1] in ("m_msg_t", "munge_cred_t", "unsigned")):
+        # declaration:  type words, stars, identifier, then ; or = initialiser
+        if tk[0] == "id" and tk[1] in TYPEWORDS:
             k = 0
             words = []
-            while self.peek(k)[0] == "id":
+            while self.peek(k)[0] == "id" and self.peek(k)[1] in TYPEWORDS:
                 words.append(self.peek(k)[1])
                 k += 1
-            name, ty = words[-1], " ".join(words[:-1])
-            self.i += k
+            stars = 0
+            while self.peek(k) == ("op", "*"):
+                stars += 1
+                k += 1
+            if self.peek(k)[0] != "id":
+                raise TErr("declaration: expected a name after %s" % " ".join(words))
+            name, ty = self.peek(k)[1], " ".join(words)
+            self.i += k + 1
             init = None
             if self.at("="):
                 self.eat()
                 init = self.expr()
             self.eat("op", ";")
-            return ("decl", ty, name, init)
+            return ("decl", ty, name, init, stars)
         lhs = self.unary()
+        if self.peek() == ("op", ";"):
+            self.eat()
+            return ("expr", lhs)
         self.eat("op", "=")
         rhs = self.expr()
         self.eat("op", ";")
@@ -261,35 +335,170 @@ def common(a, b):
     return "int"
 
 
+def strip_casts(e, kinds=("ptr", "void")):
+    while e[0] == "cast" and e[1] in kinds:
+        e = e[2]
+    return e
+
+
 class Fn:
-    def __init__(self, name, locals_, msgtypes):
+    def __init__(self, name, locals_, msgtypes, mode="msg", env=(), ptrs=None):
         self.name, self.locals, self.msgtypes = name, locals_, msgtypes      # locals: name -> type
+        self.mode, self.env, self.ptrs = mode, set(env), dict(ptrs or {})    # ptrs: pointer local -> lvalue it points to
+        self.nv = 0
+
+    def need(self, key, what):
+        if key not in self.env:
+            raise TErr("%s: %s is not part of this function's translated environment" % (self.name, what))
+
+    # ---- pointers, resolved statically
+    def lvalue(self, e):
+        """the object an address expression designates: ("local", x) or ("member", field)"""
+        e = strip_casts(e)
+        if e[0] == "var" and e[1] in self.ptrs:
+            if self.ptrs[e[1]] is None:
+                raise TErr("%s: pointer %s is used before it is assigned" % (self.name, e[1]))
+            return self.ptrs[e[1]]
+        if e[0] == "addr":
+            t = e[1]
+            if t[0] == "var" and t[1] in self.locals:
+                return ("local", t[1])
+            if t[0] == "mem" and t[1] == "m" and t[2] in MSG_FIELD and t[2] in self.msgtypes and self.mode == "msg":
+                return ("member", t[2])
+        raise TErr("%s: pointer expression outside the subset: %s" % (self.name, str(e)[:80]))
+
+    def store(self, lv, term, ty, guard=None):
+        """the `let` that stores a value of type ty through an lvalue (only when guard holds, if given)"""
+        if lv[0] == "local":
+            new = conv(term, ty, self.locals[lv[1]])
+            return "let l_%s := %s in" % (lv[1], new if guard is None else "(if %s then %s else l_%s)" % (guard, new, lv[1]))
+        new = "m <| %s := Z.to_N %s |>" % (MSG_FIELD[lv[1]], conv(term, ty, self.msgtypes[lv[1]]))
+        return "let m := %s in" % (new if guard is None else "(if %s then %s else m)" % (guard, new))
+
+    # ---- calls with an effect: hoisted in front of the condition / assignment that contains them
+    def effect(self, e):
+        """-> None, or (lets, replacement expression) for an effectful call"""
+        f, args = e[1], e[2]
+        if f == "time" and len(args) == 1:
+            self.need("time", "time ()")
+            lv = self.lvalue(args[0])
+            return [self.store(lv, "clk", "long")], ("raw", "clk", "long")
+        if f == "auth_recv" and len(args) == 3 and args[0] == ("var", "m"):
+            self.need("auth_recv", "auth_recv ()")
+            g = "(auth_rc =? 0)"
+            return [self.store(self.lvalue(args[1]), "peer_uid", "u32", g),
+                    self.store(self.lvalue(args[2]), "peer_gid", "u32", g)], ("raw", "auth_rc", "int")
+        if f == "replay_insert" and args == [("var", "c")]:
+            self.need("replay_insert", "replay_insert ()")
+            return [], ("raw", "ins", "int")
+        if self.mode == "pipe":
+            if STAGE_RE.match(f) and args in ([("var", "m")], [("var", "c")]):
+                self.nv += 1
+                return (["let '(v%d, m) := op_stage ops \"%s\"%%string m in" % (self.nv, f)],
+                        ("raw", "v%d" % self.nv, "long" if f == "cred_create" else "int"))
+            if f == "m_msg_send" and args and args[0] == ("var", "m"):
+                self.nv += 1
+                return ["let '(v%d, m) := op_send ops m in" % self.nv], ("raw", "v%d" % self.nv, "int")
+        return None
+
+    def has_effect(self, e):
+        if not isinstance(e, tuple):
+            return False
+        if e[0] == "call" and (e[1] in ("time", "auth_recv", "replay_insert", "m_msg_send", "m_msg_reset", "replay_remove",
+                                        "cred_destroy", "m_msg_set_err") or STAGE_RE.match(e[1])):
+            return True
+        if e[0] == "assignexpr":
+            return True
+        return any(self.has_effect(x) for x in e[1:] if isinstance(x, tuple)) or \
+            any(self.has_effect(y) for x in e[1:] if isinstance(x, list) for y in x)
+
+    def hoist(self, e):
+        lets = []
+        n = {"call": 0, "assign": 0}
+
+        def pure(x, where):
+            if self.has_effect(x):
+                raise TErr("%s: a call with a side effect %s is outside the subset" % (self.name, where))
+            return x
+
+        def go(x):
+            k = x[0]
+            if k in ("num", "var", "mem", "raw", "addr"):
+                return x
+            if k == "cast":
+                return ("cast", x[1], go(x[2]))
+            if k in ("neg", "!"):
+                return (k, go(x[1]))
+            if k in ("==", "!=", "<", ">", "<=", ">=", "+", "-"):
+                return (k, go(x[1]), go(x[2]))
+            if k in ("&&", "||"):
+                return (k, go(x[1]), pure(x[2], "to the right of %s" % k))
+            if k == "?:":
+                return (k, go(x[1]), pure(x[2], "in an arm of ?:"), pure(x[3], "in an arm of ?:"))
+            if k == "assignexpr":
+                if not (x[1][0] == "var" and x[1][1] in self.locals):
+                    raise TErr("%s: assignment expression to %s" % (self.name, str(x[1])[:60]))
+                r = go(x[2])
+                t, ty = self.val(r)
+                n["assign"] += 1
+                lets.append("let l_%s := %s in" % (x[1][1], conv(t, ty, self.locals[x[1][1]])))
+                return ("var", x[1][1])
+            if k == "call":
+                eff = self.effect(x)
+                if eff is not None:
+                    n["call"] += 1
+                    lets.extend(eff[0])
+                    return eff[1]
+                if self.has_effect(x) and x[1] != "m_msg_set_err":
+                    raise TErr("%s: call of %s in this form is outside the subset" % (self.name, x[1]))
+                return x
+            raise TErr("%s: expression %s" % (self.name, k))
+        r = go(e)
+        if n["call"] > 1 or n["assign"] > 1:
+            raise TErr("%s: more than one side effect in one expression" % self.name)
+        return lets, r
 
     def val(self, e):
         """-> (Z term, type)"""
         k = e[0]
         if k == "num":
             return str(e[1]), "int"
+        if k == "raw":
+            return e[1], e[2]
         if k == "var":
             n = e[1]
             if n in self.locals:
                 return "l_" + n, self.locals[n]
             if n in MACROS:
                 return "(Z.of_N %s)" % MACROS[n], "int"
+            if n in ERRS:
+                return "(Z.of_N %s)" % ERRS[n], "int"
             if n == "NULL":
                 return "0", "int"
+            if n == "ENOMEM":
+                return str(ENOMEM), "int"
+            if n == "errno":
+                self.need("errno", "errno")
+                return "errno_", "int"
             raise TErr("%s: unknown identifier %s" % (self.name, n))
         if k == "mem":
             if e[1] == "m":
+                if e[2] in PTR_FIELD and self.mode == "msg":
+                    self.need(PTR_FIELD[e[2]][1], "the pointer member m->%s" % e[2])
+                    return PTR_FIELD[e[2]][0], "long"
                 if e[2] not in MSG_FIELD or e[2] not in self.msgtypes:
                     raise TErr("%s: member m->%s is not modelled" % (self.name, e[2]))
+                if self.mode == "pipe":
+                    return "(Z.of_N (%s (op_msg ops m)))" % MSG_FIELD[e[2]], self.msgtypes[e[2]]
                 return "(Z.of_N (%s m))" % MSG_FIELD[e[2]], self.msgtypes[e[2]]
-            if e[1] == "conf":
+            if e[1] == "conf" and self.mode == "msg":
                 if e[2] not in CONF_FIELD:
                     raise TErr("%s: conf->%s is not modelled" % (self.name, e[2]))
                 return CONF_FIELD[e[2]]
             raise TErr("%s: member of %s" % (self.name, e[1]))
         if k == "cast":
+            if e[1] in ("ptr", "void"):
+                raise TErr("%s: pointer/void cast in an integer expression" % self.name)
             t, ty = self.val(e[2])
             return conv(t, ty, e[1]), e[1]
         if k == "neg":
@@ -311,6 +520,8 @@ class Fn:
             return "(if %s then %s else %s)" % (c, conv(a, ta, ty), conv(b, tb, ty)), ty
         if k == "call":
             f, args = e[1], e[2]
+            if self.has_effect(e):
+                raise TErr("%s: call of %s where it is not evaluated unconditionally" % (self.name, f))
             av = [self.val(x) for x in args]
             if f in ("cipher_map_enum", "mac_map_enum") and len(args) == 2:
                 tab = "cipher_valid" if f.startswith("cipher") else "mac_valid"
@@ -320,8 +531,11 @@ class Fn:
             if f == "zip_is_valid_type" and len(args) == 1:
                 return "(b2z (zip_valid (Z.to_N %s)))" % conv(av[0][0], av[0][1], "int"), "int"
             if f == "gids_is_member" and len(args) == 3:
+                self.need("gids", "gids_is_member ()")
                 return "(b2z (is_member (Z.to_N %s) (Z.to_N %s)))" % (conv(av[1][0], av[1][1], "u32"), conv(av[2][0], av[2][1], "u32")), "int"
             raise TErr("%s: call of %s is outside the translated subset" % (self.name, f))
+        if k in ("addr", "assignexpr"):
+            raise TErr("%s: %s in an integer expression" % (self.name, k))
         # boolean-valued expression used as a number
         return "(b2z %s)" % self.cond(e), "int"
 
@@ -344,12 +558,36 @@ class Fn:
         t, ty = self.val(e)
         return "(negb (%s =? 0))" % t
 
-    # statements: each list of statements becomes a term of type  (N * msg) + state   given the state variables in scope
+    # statements: each list of statements becomes a term of type  R + state   given the state variables in scope
+    # (R = N * msg, or Z * S for a skeleton)
     def state(self):
         return "(m, (%s))" % ", ".join(["l_" + n for n in self.locals] + ["tt"])
 
+    def simple(self, s):
+        """lines for a statement without control flow (assignment, expression statement), or None"""
+        if s[0] == "assign":
+            return self.assign(s)
+        if s[0] == "expr":
+            e = strip_casts(s[1], ("void",))
+            if e[0] != "call":
+                raise TErr("%s: expression statement %s" % (self.name, e[0]))
+            if e[1] == "log_msg":
+                return []
+            if self.mode == "pipe" and e[2] in ([("var", "m")], [("var", "c")]):
+                if e[1] == "m_msg_reset":
+                    return ["let m := op_reset ops m in"]
+                if e[1] == "replay_remove":
+                    return ["let m := op_unplay ops m in"]
+                if e[1] == "cred_destroy":
+                    return []
+            lets, r = self.hoist(e)
+            if r[0] == "raw":
+                return lets                   # the value of the call is discarded
+            raise TErr("%s: call of %s as a statement is outside the subset" % (self.name, e[1]))
+        return None
+
     def seq(self, stmts, labels, ind):
-        """term of type N * msg: run stmts; falling off the end is an error in these int functions"""
+        """term of type R: run stmts; falling off the end is an error in these int functions"""
         sp = " " * ind
         if not stmts:
             raise TErr("%s: control reaches the end of the function without a return" % self.name)
@@ -368,8 +606,8 @@ class Fn:
             if s[1] not in labels:
                 raise TErr("%s: goto %s: no such trailing label" % (self.name, s[1]))
             return self.seq(labels[s[1]], labels, ind)
-        if k == "assign":
-            return sp + self.assign(s) + "\n" + self.seq(rest, labels, ind)
+        if k in ("assign", "expr"):
+            return "".join(sp + l + "\n" for l in self.simple(s)) + self.seq(rest, labels, ind)
         if k == "if":
             if self.falls(s):
                 # the if-statement as a state transformer with early exits:  match (...) with inl r => r | inr s => rest end
@@ -380,19 +618,25 @@ class Fn:
         raise TErr("%s: statement %s" % (self.name, k))
 
     def ret(self, e):
+        if self.mode == "pipe":
+            t, ty = self.val(e)
+            return "(%s, m)" % conv(t, ty, "int")
         if e == ("num", 0):
             return "(0%N, m)"
-        if e[0] == "call" and e[1] == "m_msg_set_err" and len(e[2]) >= 2 and e[2][1][0] == "var" and e[2][1][1] in ERRS:
+        if e[0] == "call" and e[1] == "m_msg_set_err" and len(e[2]) >= 2 and e[2][0] == ("var", "m") and \
+                e[2][1][0] == "var" and e[2][1][1] in ERRS and e[2][1][1] != "EMUNGE_SUCCESS":
             return "(%s, m)" % ERRS[e[2][1][1]]
         raise TErr("%s: return value outside the subset: %s" % (self.name, str(e)[:80]))
 
     def assign(self, s):
-        lhs, rhs = s[1], s[2]
+        lhs = s[1]
+        lets, rhs = self.hoist(s[2])
         t, ty = self.val(rhs)
         if lhs[0] == "var" and lhs[1] in self.locals:
-            return "let l_%s := %s in" % (lhs[1], conv(t, ty, self.locals[lhs[1]]))
-        if lhs[0] == "mem" and lhs[1] == "m" and lhs[2] in MSG_FIELD and lhs[2] in self.msgtypes:
-            return "let m := m <| %s := Z.to_N %s |> in" % (MSG_FIELD[lhs[2]], conv(t, ty, self.msgtypes[lhs[2]]))
+            return lets + [self.store(("local", lhs[1]), t, ty)]
+        if lhs[0] == "mem" and lhs[1] == "m" and lhs[2] in MSG_FIELD and lhs[2] in self.msgtypes and self.mode == "msg" \
+                and lhs[2] != "error_num":
+            return lets + [self.store(("member", lhs[2]), t, ty)]
         raise TErr("%s: assignment to %s" % (self.name, str(lhs)))
 
     def falls(self, s):
@@ -409,7 +653,7 @@ class Fn:
         return True
 
     def blocksum(self, stmts, labels, ind, final):
-        """term of type (N*msg) + state (or N*msg when final) for a block that may fall through"""
+        """term of type R + state (or R when final) for a block that may fall through"""
         sp = " " * ind
         if not stmts:
             if final:
@@ -428,8 +672,8 @@ class Fn:
             if t is None:
                 raise TErr("%s: goto %s" % (self.name, s[1]))
             return t if final else "%sinl (\n%s)" % (sp, t)
-        if k == "assign":
-            return sp + self.assign(s) + "\n" + self.blocksum(rest, labels, ind, final)
+        if k in ("assign", "expr"):
+            return "".join(sp + l + "\n" for l in self.simple(s)) + self.blocksum(rest, labels, ind, final)
         if k == "if":
             if rest and self.falls(s):
                 body = self.ifsum(s, labels, ind + 2)
@@ -441,7 +685,8 @@ class Fn:
 
     def ifsum(self, s, labels, ind, final=False):
         sp = " " * ind
-        c = self.cond(s[1])
+        lets, ce = self.hoist(s[1])
+        c = self.cond(ce)
         th = self.blocksum(s[2], labels, ind + 2, final)
         if s[3]:
             el = self.blocksum(s[3], labels, ind + 2, final)
@@ -449,7 +694,7 @@ class Fn:
             if final:
                 raise TErr("%s: control reaches the end of the function without a return" % self.name)
             el = " " * (ind + 2) + "inr %s" % self.state()
-        return "%sif %s then\n%s\n%selse\n%s" % (sp, c, th, sp, el)
+        return "%s%sif %s then\n%s\n%selse\n%s" % ("".join(sp + l + "\n" for l in lets), sp, c, th, sp, el)
 
 
 def func_text(src, name):
@@ -459,33 +704,57 @@ def func_text(src, name):
     return m.group(2)
 
 
-def translate(src, name, msgtypes, extra_params=""):
+def translate(src, name, msgtypes, env=(), mode="msg"):
     body = func_text(src, name)
     p = P(lex(body))
     stmts = []
     while p.peek()[0] != "eof":
         stmts.append(p.stmt())
-    # locals = integer declarations; `m_msg_t m = c->msg;` just names the message
-    locals_ = {}
+    # locals = integer declarations; `m_msg_t m = c->msg;` just names the message; pointer locals are resolved statically
+    locals_, ptrs = {}, {}
     keep = []
     for s in stmts:
         if s[0] == "decl":
-            if s[1] in ("m_msg_t", "munge_cred_t"):
+            ty, nm, init, stars = s[1], s[2], s[3], s[4]
+            if ty in ("m_msg_t", "munge_cred_t") and not stars and init == ("mem", "c", "msg") and nm == "m":
                 continue
-            if s[1] not in CTYPE:
-                raise TErr("%s: local %s of type %s" % (name, s[2], s[1]))
-            locals_[s[2]] = CTYPE[s[1]]
+            if stars:
+                if stars > 1 or init is not None or ty not in CTYPE:
+                    raise TErr("%s: pointer local %s" % (name, nm))
+                ptrs[nm] = None
+                continue
+            if ty in ("m_msg_t", "munge_cred_t"):
+                if mode != "pipe":
+                    raise TErr("%s: local %s of type %s" % (name, nm, ty))
+                locals_[nm] = "long"                      # a pointer held in a local: an integer, NULL = 0
+            elif ty not in CTYPE:
+                raise TErr("%s: local %s of type %s" % (name, nm, ty))
+            else:
+                locals_[nm] = CTYPE[ty]
         keep.append(s)
+    fn = Fn(name, locals_, msgtypes, mode, env, ptrs)
+    # top-level assignments to pointer locals bind them (before any use)
+    keep2 = []
+    for s in keep:
+        if s[0] == "assign" and s[1][0] == "var" and s[1][1] in fn.ptrs:
+            if fn.ptrs[s[1][1]] is not None or any(x[0] in ("if", "label", "goto") for x in keep2):
+                raise TErr("%s: pointer %s is re-assigned or assigned after a branch" % (name, s[1][1]))
+            fn.ptrs[s[1][1]] = fn.lvalue(s[2])
+            continue
+        keep2.append(s)
+    keep = keep2
     # trailing labels: label L: followed by statements to the end
     labels = {}
     for i, st in enumerate(keep):
         if st[0] == "label":
             labels[st[1]] = keep[i + 1:]
     main = keep                      # control falls through a label into the statements after it
-    fn = Fn(name, locals_, msgtypes)
     init = "".join("  let l_%s := 0 in\n" % n for n in locals_)
     term = fn.seq(main, labels, 2)
-    return "Definition src_%s (cf : conf)%s (m : msg) : N * msg :=\n%s%s." % (name, extra_params, init, term)
+    if mode == "pipe":
+        return "Definition src_%s {S : Type} (ops : pipe_ops S) (m : S) : Z * S :=\n%s%s." % (name, init, term)
+    params = "".join(" " + d for k, d in ENV_PARAMS if k in fn.env)
+    return "Definition src_%s (cf : conf)%s (m : msg) : N * msg :=\n%s%s." % (name, params, init, term)
 
 
 def msg_types(hsrc):
@@ -498,6 +767,18 @@ def msg_types(hsrc):
     return out
 
 
+PIPE_OPS = """(* the operations a request-processing skeleton is translated over: S is the state of one request *)
+Record pipe_ops (S : Type) : Type := {
+  op_msg : S -> msg;                   (* the m_msg the members m->... are read from *)
+  op_stage : string -> S -> Z * S;     (* a stage function, by its C name: its return value and the new state *)
+  op_reset : S -> S;                   (* m_msg_reset (m) *)
+  op_send : S -> Z * S;                (* m_msg_send (m, ...): its munge_err_t value and the new state *)
+  op_unplay : S -> S                   (* replay_remove (c) *)
+}.
+Arguments op_msg {S}. Arguments op_stage {S}. Arguments op_reset {S}. Arguments op_send {S}. Arguments op_unplay {S}.
+"""
+
+
 def gen(api):
     R = api.REPO
     try:
@@ -505,17 +786,27 @@ def gen(api):
         dsrc = open(os.path.join(R, "src/munged/dec.c")).read()
         esrc = open(os.path.join(R, "src/munged/enc.c")).read()
         defs = [translate(esrc, "enc_validate_msg", mt),
-                translate(dsrc, "dec_validate_auth", mt, " (is_member : N -> N -> bool)"),
-                translate(dsrc, "dec_validate_time", mt)]
+                translate(dsrc, "dec_validate_auth", mt, env=["gids"]),
+                translate(dsrc, "dec_validate_time", mt),
+                translate(dsrc, "dec_validate_msg", mt, env=["data_ptr"]),
+                translate(dsrc, "dec_timestamp", mt, env=["time"]),
+                translate(esrc, "enc_timestamp", mt, env=["time"]),
+                translate(dsrc, "dec_authenticate", mt, env=["auth_recv"]),
+                translate(esrc, "enc_authenticate", mt, env=["auth_recv"]),
+                translate(dsrc, "dec_check_retry", mt),
+                translate(esrc, "enc_check_retry", mt),
+                translate(dsrc, "dec_validate_replay", mt, env=["replay_insert", "errno"]),
+                translate(dsrc, "dec_process_msg", mt, mode="pipe"),
+                translate(esrc, "enc_process_msg", mt, mode="pipe")]
     except (TErr, OSError, IndexError) as e:
         raise api.GenError("cfun: " + str(e))
     out = "\n".join([
-        "(* GENERATED from the C text of enc.c (enc_validate_msg) and dec.c (dec_validate_auth, dec_validate_time) by tools/facts/cfun.py - do not edit *)",
-        "From Coq Require Import List NArith ZArith Bool.", "From RecordUpdate Require Import RecordSet.",
+        "(* GENERATED from the C text of enc.c and dec.c (decision functions and the enc_process_msg / dec_process_msg skeletons) by tools/facts/cfun.py - do not edit *)",
+        "From Coq Require Import List NArith ZArith Bool String.", "From RecordUpdate Require Import RecordSet.",
         "From MV Require Import Bytes CredModel.", "From MV.gen Require Import GenCred.",
         "Import ListNotations RecordSetNotations.", "Local Open Scope Z_scope.",
         "Definition b2z (b : bool) : Z := if b then 1 else 0.",
         "Definition wrap32 (z : Z) : Z := z mod 4294967296.",
         "Definition wrapi32 (z : Z) : Z := (z + 2147483648) mod 4294967296 - 2147483648.",
-        ""] + [d + "\n" for d in defs])
+        PIPE_OPS] + [d + "\n" for d in defs])
     return api.write_gen("GenCredFun.v", out)
